@@ -204,3 +204,26 @@ PROPS["C07"] = dict(
     ],
     assumptions=PUPPET_ASSUMPTIONS + ["the event delegate cannot call Members() itself (it runs under the node lock), so faithfulness is checked at quiescent points"],
 )
+
+PROPS["C06"] = dict(
+    title="Suspicion timeout respects the Lifeguard bounds and confirmation rules",
+    pkg="./props/c06",
+    level="exploration",
+    rule=("one real node with 0-12 (thorough 0-38) healthy scripted peers (cluster size 2-40), SuspicionMult 1-8, SuspicionMaxTimeoutMult 1-8, probe interval "
+          "200ms/1s; the suspicion of a subject starts from an injected accusation (exact start instant) or from the node's own failed probe (start = probe "
+          "instant + interval); then a timed script of up to 8 acts - confirmations from distinct peers, repeats, the original accuser, the local node, the "
+          "subject, unknown names, at the current or an older incarnation; refutation; re-suspicion; third-party death; leave - at instants drawn 1-50 ms "
+          "around every analytic deadline (min, max, the timeout after c=0..k confirmations) or uniformly. Oracle: exact-arithmetic model of k, min, max and "
+          "the logarithmic schedule; the leave event for the subject must occur within 1 ms of the model's instant (timer expiry, confirmation driving the timer "
+          "to zero, foreign death, leave) or never (refuted), and a timer death lies in [min, max] after the start of the suspicion that caused it. "
+          "non-trivial = at least one confirmation processed while a suspicion is pending; distinct = distinct plans"),
+    tests=[
+        dict(name="sched", run="^TestSuspicionSchedule$",
+             quick=dict(shards=16, checks=250, timeout=600),
+             thorough=dict(shards=16, checks=8000, timeout=3000)),
+    ],
+    assumptions=PUPPET_ASSUMPTIONS + [
+        "messages are delivered 200us after sending and processed in zero virtual time; script instants are offset by 0.3-0.5 ms so that no arrival ties with a deadline",
+        "own-evidence plans that contain a refutation are only checked up to it (the silent subject is suspected again by the node itself)",
+    ],
+)
